@@ -356,3 +356,15 @@ package coordinator
 //@   props C05
 //@   nosafety
 //@   call ShardGroupsByTimeRange#1 requires source_not_mapped_yet: !has(a.RemoteShardMapping, source)
+
+// ---- C08: every point of a batch goes to a group that designates its time ----
+// Whatever shortcut picks the group for a point (the per-batch list, a cache of the previous point's group),
+// the group handed to ShardFor must contain the point's time, not be deleted and not be truncated at or before it.
+//@ pure designates_ns(g, n) = n >= nanos(g.StartTime) && n < nanos(g.EndTime) && g.DeletedAt.IsZero() && (g.TruncatedAt.IsZero() || n < nanos(g.TruncatedAt))
+//@ func (*PointsWriter).MapShards
+//@   props C08
+//@   nosafety
+//@   ghost pt int = 0
+//@   at after Time#4: ghost pt = nanos(callresult)
+//@   callee_requires_assumed
+//@   call ShardGroupInfo.ShardFor#1 requires group_designates_the_points_time: sg != nil && designates_ns(sg, pt)
